@@ -490,6 +490,9 @@ func (e *Env) evalAddr(x ast.Expr) SV {
 			return cur
 		}
 	case *ast.IndexExpr:
+		if g := e.ghostOf(n.X); g != nil && g.isMap {
+			return e.ghostMapEntry(g, e.eval(n.Index, g.keyT))
+		}
 		base := e.eval(n.X, nil)
 		idx := e.eval(n.Index, types.Typ[types.Int])
 		if _, ok := base.ty.Underlying().(*types.Slice); ok {
@@ -502,6 +505,9 @@ func (e *Env) evalAddr(x ast.Expr) SV {
 			}
 		}
 		if g := e.x.ghost(e.pkg.Path(), n.Name); g != nil {
+			if g.isMap {
+				return e.ghostMapEntry(g, zeroSV(g.keyT))
+			}
 			return g.ptr
 		}
 	}
@@ -533,6 +539,13 @@ func sliceElemAddr(s SV, idx *Term) SV {
 }
 
 func (e *Env) evalIndex(n *ast.IndexExpr) SV {
+	if g := e.ghostOf(n.X); g != nil && g.isMap {
+		k := e.eval(n.Index, g.keyT)
+		if len(k.l) != len(leavesOf(g.keyT)) {
+			efail("ghost map key shape mismatch")
+		}
+		return e.st.load(e.x, e.ghostMapEntry(g, k))
+	}
 	base := e.eval(n.X, nil)
 	switch u := base.ty.Underlying().(type) {
 	case *types.Slice:
@@ -946,4 +959,30 @@ func (x *Exec) declSpec(sf *SpecFunc) *UFDecl {
 func shortPkg(p string) string {
 	p = strings.TrimPrefix(p, "github.com/scionproto/scion/")
 	return strings.ReplaceAll(p, "/", "_")
+}
+
+// ghostMapEntry returns a pointer to entry k of a ghost (total) map.
+func (e *Env) ghostMapEntry(g *ghostInfo, k SV) SV {
+	ks := keySort(g.keyT)
+	return SV{ty: types.NewPointer(g.valT), l: []*Term{mkBV(1, 32)},
+		p: &PtrInfo{rootKey: g.key, rootTy: g.valT, backing: true, idxSort: ks, steps: []Step{{field: -1, idx: keyTerm(k)}}}}
+}
+
+func (e *Env) ghostOf(x ast.Expr) *ghostInfo {
+	switch n := x.(type) {
+	case *ast.Ident:
+		if _, isVar := e.vars[n.Name]; isVar {
+			return nil
+		}
+		return e.x.ghost(e.pkg.Path(), n.Name)
+	case *ast.SelectorExpr:
+		if id, ok := n.X.(*ast.Ident); ok {
+			if _, isVar := e.vars[id.Name]; !isVar {
+				if p := e.importNamed(id.Name); p != nil {
+					return e.x.ghost(p.Path(), n.Sel.Name)
+				}
+			}
+		}
+	}
+	return nil
 }
